@@ -517,7 +517,7 @@ theorem mutCheck_clear {s : LState} {h : Handle} (hc : mutCheck s h = .ok ()) :
       exact ⟨by simpa [Handle.view] using hb.2, by simpa [Handle.view] using hb.1⟩
 
 theorem live_of_contains {h : Handle} {c : Nat} (hc : ¬ (!h.copies.contains c) = true) : h.live = true := by
-  simp only [Bool.not_eq_true', Bool.not_eq_false'] at hc
+  simp only [Bool.not_eq_true'] at hc
   have : c ∈ h.copies := by simpa using hc
   cases hcs : h.copies with
   | nil => rw [hcs] at this; cases this
@@ -666,6 +666,23 @@ theorem lstep_invC (pol : Policy) {s : LState} (inv : InvC s) (op : Op) : InvC (
         · rename_i hc
           exact inv.transfer rfl rfl (noteAccess_direct inv true hi (fun _ => hc))
             (noteAccess_alias inv true hi (fun _ => hc))
+  | pinUse i c =>
+    simp only [lstep]
+    split
+    · exact inv
+    · rename_i h hi
+      split
+      · exact inv
+      · split
+        · exact inv
+        · rename_i hc
+          exact inv.transfer rfl rfl (noteAccess_direct inv true hi (fun _ => hc))
+            (noteAccess_alias inv true hi (fun _ => hc))
+  | unpinUse =>
+    simp only [lstep]
+    split
+    · exact inv
+    · exact inv.transfer rfl rfl inv.direct inv.alias
   | derive i c k =>
     simp only [lstep]
     split
